@@ -26,6 +26,7 @@ import (
 	"os"
 	"path"
 	rpprof "runtime/pprof"
+	"sort"
 	"strconv"
 	"strings"
 	"sync"
@@ -141,6 +142,21 @@ func (p *prop) init() {
 		}
 		p.certs = append(p.certs, c)
 		p.b64 = append(p.b64, base64.StdEncoding.EncodeToString(der))
+	}
+	// routes contributed by the real admin.api modules linked into this binary (through the
+	// Caddyfile adapter's imports); Driver.lean lists the same patterns as `linkedModulePats`
+	var linked []string
+	for _, m := range caddy.GetModules("admin.api") {
+		if m.ID == "admin.api.verifprobe" {
+			continue
+		}
+		for _, r := range m.New().(caddy.AdminRouter).Routes() {
+			linked = append(linked, r.Pattern)
+		}
+	}
+	sort.Strings(linked)
+	if strings.Join(linked, " ") != strings.Join(linkedModulePats, " ") {
+		panic(fmt.Sprintf("admin.api routes linked into the harness are %q, the model expects %q", linked, linkedModulePats))
 	}
 	if err := caddy.Load([]byte(baseCfg), true); err != nil {
 		panic("loading base config: " + err.Error())
@@ -550,6 +566,9 @@ func parseCase(line string) (*acase, bool) {
 
 // ---- protocol domain (mirrors Driver.lean)
 
+// patterns of the real admin.api modules linked into the harness (sorted)
+var linkedModulePats = []string{"/adapt", "/load", "/pki/"}
+
 var builtinPats = []string{"/config/", "/id/", "/stop", "/debug/pprof/", "/debug/pprof/cmdline", "/debug/pprof/profile",
 	"/debug/pprof/symbol", "/debug/pprof/trace", "/debug/vars"}
 
@@ -670,7 +689,7 @@ func (c *acase) inDomain() string {
 		}
 	}
 	for _, p := range c.pats {
-		if !safeBytes(p) || !isCleanPath(p) || contains(builtinPats, p) {
+		if !safeBytes(p) || !isCleanPath(p) || contains(builtinPats, p) || contains(linkedModulePats, p) {
 			return "bad-op"
 		}
 	}
@@ -1260,6 +1279,9 @@ func (p *prop) Run(line string) core.Outcome {
 	p.mu.Lock()
 	defer p.mu.Unlock()
 	p.init()
+	if f := strings.Fields(line); len(f) > 0 && f[0] == "cf" {
+		return p.runCf(f)
+	}
 	c, ok := parseCase(line)
 	if !ok {
 		return core.Outcome{Impl: "bad-op", Tags: []string{"bad-op", "trivial"}}
